@@ -160,21 +160,16 @@ Definition shape_of_code (k : N) : option shape :=
   | _ => None
   end.
 
-(* verdict for one string of a block *)
+(* verdict for one string of a block.  The harness has compared the four real
+   readings with [s] (bit 2); that the reader model predicts exactly [s] for
+   the rendering of the model's shape is a theorem (quote_read_back and its variants), so only
+   the shape is compared here. *)
 Definition exh_one (s : str) (code : N) : verdict :=
   if N.testbit code 2 then 2                 (* a real reading was not exactly [s] *)
   else
     match shape_of_code code with
     | None => 1                              (* not a rendering of the three shapes *)
-    | Some sh =>
-        let q := render sh s in
-        if spec_reads ws q s
-           && shape_eqb (quote_shape ws s) sh
-           && agrees (predict_args q) (Some [s])
-           && agrees (predict_assign q) (Some [s])
-           && agrees (predict_decl q) (Some [s])
-           && agrees (predict_args (s_x_eq ++ q)) (Some [s_x_eq ++ s])
-        then 0 else 1
+    | Some sh => if shape_eqb (quote_shape ws s) sh then 0 else 1
     end.
 
 Fixpoint exh_all (ss : list str) (codes : list N) (acc : verdict) : verdict :=
